@@ -857,6 +857,8 @@ pub fn run_machine(out: &mut Out, seed: u64, n: u64) {
         let idt: &'static Idt = idt;
         // --- hand the structures to the CPU
         cpu::drain();
+        // GDTR will point at the table built above: the emulated ltr may mark the TSS descriptor busy in it
+        cpu::LTR_MARKS_BUSY.store(1, std::sync::atomic::Ordering::SeqCst);
         let loaded = catch(|| unsafe {
             if sc % 2 == 0 {
                 gdt.load_unsafe();
@@ -869,6 +871,7 @@ pub fn run_machine(out: &mut Out, seed: u64, n: u64) {
             }
         })
         .is_some();
+        cpu::LTR_MARKS_BUSY.store(0, std::sync::atomic::Ordering::SeqCst);
         let ins = cpu::drain();
         let find = |m: u64| ins.iter().find(|x| x.m == m);
         let (gdt_base, gdt_limit) = find(cpu::M_LGDT).map(|x| (x.c, x.b)).unwrap_or((0, 0));
@@ -878,7 +881,7 @@ pub fn run_machine(out: &mut Out, seed: u64, n: u64) {
         // are dereferenced; anything else is logged as an empty image (and rejected).
         let gdt_addr = gdt.entries().as_ptr() as u64;
         let gdt_len = gdt.entries().len() as u64;
-        let gdt_words: Vec<u64> = if gdt_base == gdt_addr && gdt_limit < 8 * 12 { (0..(gdt_limit + 1) / 8).map(|i| unsafe { *((gdt_base + 8 * i) as *const u64) }).collect() } else { vec![] };
+        let gdt_words: Vec<u64> = if gdt_base == gdt_addr && gdt_limit < 8 * 12 { (0..(gdt_limit + 1) / 8).map(|i| unsafe { core::ptr::read_volatile((gdt_base + 8 * i) as *const u64) }).collect() } else { vec![] };
         let idt_addr = idt as *const _ as u64;
         let idt_words: Vec<u64> = if idt_base == idt_addr && idt_limit < 4096 { (0..(idt_limit + 1) / 8).map(|i| unsafe { *((idt_base + 8 * i) as *const u64) }).collect() } else { vec![] };
         // the TSS base as the descriptor in the loaded GDT states it
